@@ -290,14 +290,14 @@ def isPreface (prefaces : List Str) (seg : Str) : Py Bool :=
             if w then isPreface ps seg else .ok true
       else isPreface ps seg
 
-/-- regex `^\[(.*?)\]` on `[ :: tl` (bracket names): length of the match (None when no closing
-character comes before a newline / the end) -/
-def quotedMatchLen (close : Char) : Str → Option Nat
+/-- regex `^\[([^\]]*)\]` on `[ :: tl` (bracket names, 417a203), given `tl`: length of the match —
+up to the first "]", whatever comes before it (a newline too: a negated class, not `.`); None when
+there is no "]" -/
+def bracketMatchLen : Str → Option Nat
   | [] => none
   | c :: cs =>
-      if c == close then some 2
-      else if c == '\n' then none
-      else (quotedMatchLen close cs).map (· + 1)
+      if c == ']' then some 2
+      else (bracketMatchLen cs).map (· + 1)
 
 /-- regex `^Q((?:[^Q]|QQ)*)Q` on `Q :: tl` for a quote character `Q` (687226d), given `tl`:
 (`group(1)`, length of the match).  The group is a sequence of units — one character other than `Q`
@@ -339,7 +339,8 @@ def quotedName (t : Str) : Option (Option (Str × Nat)) :=
   | [] => none
   | c :: tl =>
       if c == '[' then
-        some ((quotedMatchLen ']' tl).map fun n => (stripSet bracketStripSet (t.take n), n))
+        -- the name is the matched text `[…]` with `.strip("[]")`: every leading and trailing "[" / "]" goes
+        some ((bracketMatchLen tl).map fun n => (stripSet bracketStripSet (t.take n), n))
       else if isQuoteChar c then
         some ((quotedGroup c tl).map fun (g, n) => (replaceDouble c g, n))
       else none
